@@ -39,10 +39,9 @@ Theorem wf_output_partial driver d :
   nodup_str (driver :: declared_blocks (tree_fuel d) (d_objects d) ++ map (fun x => e_name (fst (fst x))) (enums_of d)) = true ->
   nodup_str (field_set_type_names d) = true ->
   forallb (fun f => readable (f_access f)) (all_fields d) = true ->
-  read_all_strides_ok d = true ->
   forallb enum_literals_ok (enums_of d) = true ->
   wf_output driver d = true.
 Proof.
-  intros Hnb Hn1 Hn2 Hr Hs He. unfold wf_output, toplevel_type_names, debug_refs_resolve.
-  rewrite block_structs_declared by assumption. rewrite Hn1, Hn2, Hr, Hs, He. reflexivity.
+  intros Hnb Hn1 Hn2 Hr He. unfold wf_output, toplevel_type_names, debug_refs_resolve.
+  rewrite block_structs_declared by assumption. rewrite Hn1, Hn2, Hr, He. reflexivity.
 Qed.
